@@ -18,7 +18,8 @@ size_t len(var self) { return cv_nitems; }
 var get(var self, var key) { int64_t i = ((struct Int*)key)->val; __CPROVER_assert(i >= 0 && (size_t)i < cv_nitems, "get within the argument tuple"); return cv_items[i]; }
 char* c_str(var self) { return HDR(self)->type == String ? ((struct String*)self)->val : (char*)cv_type_name(self); }
 int64_t c_int(var self) { return ((struct Int*)self)->val; }
-void cv_on_throw(var obj) { ASSERT(obj == OutOfMemoryError, "no exception while building / querying a run-time type"); }
+static int cv_expect_cast_throw;
+void cv_on_throw(var obj) { ASSERT(obj == OutOfMemoryError || (cv_expect_cast_throw && obj == ValueError), "no exception while building / querying a run-time type"); }
 
 /* allocator model: calloc hands out a zeroed block that is *typed* as (Header, Type[]) so that symex can fold field reads
  * (an untyped byte block makes every t->name a byte_extract over symbolic bytes); the requested size is recorded and checked */
@@ -29,6 +30,7 @@ void* calloc(size_t n, size_t s) { cv_calloc_size = n * s; if (nondet_bool()) re
 #define CLASS_OBJ(NAME, STR) static var NAME##_rec[] = { NULL, (var)AllocStatic, (var)CELLO_MAGIC_NUM, CELLO_CACHE_HEADER NULL, "__Name", STR, NULL, "__Size", (var)8, NULL, NULL, NULL }; \
   static var NAME = (var)((char*)NAME##_rec + sizeof(struct Header));
 CLASS_OBJ(CA, "A") CLASS_OBJ(CAB, "AB") CLASS_OBJ(CB, "B") CLASS_OBJ(CBA, "BA")
+CLASS_OBJ(CRT, "RT")        /* a static type that merely shares its name with the run-time type built below */
 
 void h_runtime(void) {
   struct { struct Header h; var member; } I0, I1, I2;
@@ -84,4 +86,10 @@ void h_runtime(void) {
     ASSERT(type_instance(T, classes[c]) == want, "run-time type: repeated lookup gives the same answer");
   }
   COVER(1, "runtime type built and queried");
+  /* two different types with the same name: cast is by identity of the type object, not by name */
+  struct { struct Header h; int64_t body[2]; } O; var o = header_init(&O.h, CRT, AllocStack);
+  ASSERT(cast(o, CRT) == o, "[C08] cast to the object's own type is the identity");
+  cv_expect_cast_throw = 1;
+  cast(o, T);
+  ASSERT(0, "[C08][C12] cast to a different type raises ValueError even when the two types carry the same name");
 }
